@@ -39,7 +39,14 @@ def oracle(a, tree, rng):
     if isinstance(a, claripy.ast.BV):
         vs = E.variables(tree)
         env = E.sample_envs(vs, rng, 1)[0]
-        v = E.ev(tree, env)
+        try:
+            v = E.ev(tree, env)
+        except E.Unsupported as ex:
+            if "ill-sized" in str(ex):
+                return "operands of different widths under one operator (reported length %s)" % a.length
+            raise
+        except KeyError:
+            return "two variables share a name at different widths inconsistently"
         if v[0] != "bv" or v[1] != a.length:
             return "length %s but the denoted value has width %s" % (a.length, v[1] if v[0] == "bv" else v[0])
         if not a.symbolic and not occ:
@@ -47,6 +54,9 @@ def oracle(a, tree, rng):
             if cv != v[2]:
                 return "concrete value %d but denotes %d" % (cv, v[2])
     return None
+
+
+KEEP = []
 
 
 def derived(a, rng):
@@ -59,8 +69,22 @@ def derived(a, rng):
             l = rng.choice(leaves)
             out.append(("replace", claripy.replace(a, l, claripy.BVS("r", l.length, explicit_name=True) + 1)))
             out.append(("replace_const", claripy.replace(a, l, claripy.BVV(rng.getrandbits(l.length), l.length))))
+            # substitution below an annotated inner node (the make_like fast path must not keep stale metadata)
+            if isinstance(a, claripy.ast.BV) and not a.is_leaf():
+                tagged = a.annotate(claripy.annotation.SimplificationAvoidanceAnnotation())
+                outer = rng.choice([tagged + 1, claripy.Concat(tagged, claripy.BVV(0, 1)), ~tagged, claripy.If(claripy.BoolS("c05", explicit_name=True), tagged, tagged + 2)])
+                out.append(("replace_under_annotation", claripy.replace(outer, l, claripy.BVS("r", l.length, explicit_name=True) * 3)))
+                out.append(("replace_under_annotation_const", claripy.replace(outer, l, claripy.BVV(rng.getrandbits(l.length), l.length))))
+                out.append(("replace_annotated_itself", claripy.replace(tagged, l, claripy.BVS("r2", l.length, explicit_name=True))))
         if rng.random() < 0.15:
             out.append(("z3_simplify", claripy.simplify(a)))
+        if rng.random() < 0.1:
+            # Z3 identifies a symbol by name AND sort: same explicit name at different widths must stay different variables
+            for wd in (8, 16, 32):
+                cell = claripy.BVS("cell", wd, explicit_name=True)
+                KEEP.append(cell)
+                e = rng.choice([(cell + 1) * 2 - cell, claripy.LShR(cell, 1) ^ cell, cell[wd - 1:1].zero_extend(1) + cell])
+                out.append(("z3_simplify_shared_name", claripy.simplify(e)))
     except claripy.errors.ClaripyError:
         pass
     return out
@@ -116,8 +140,48 @@ def run(ctx):
                 expect.append((sub.length if isinstance(sub, claripy.ast.BV) else None, occurring_vars(sub), sub.depth,
                                sub.symbolic, set(sub.variables), E.sexpr(t)))
 
+    import props.C07 as C07
+    agen = C07.Gen(rng, p=0.3)
+    uniq = [0]
+
+    def fresh_names(t):
+        """rename every variable so that no un-annotated twin of an annotated leaf is alive in the hash cache"""
+        if t[0] == "bvs":
+            return ("bvs", "%s_u%d" % (t[1], uniq[0]), t[2])
+        if t[0] == "bools":
+            return ("bools", "%s_u%d" % (t[1], uniq[0]))
+        if t[0] in ("bvv", "boolv", "int"):
+            return t
+        return (t[0],) + tuple(fresh_names(x) for x in t[1:])
+
+    # corpus of past failures first: a distributing Extract that simplifies to an annotated leaf with no live twin
+    for k in range(ctx.pick(60, 600)):
+        uniq[0] += 1
+        w1, w2 = rng.choice([1, 4, 8]), rng.choice([1, 4, 8])
+        z = claripy.BVS("z_c%d" % uniq[0], w2, explicit_name=True).annotate(C07.Elim(uniq[0]))
+        x1 = claripy.BVS("x_c%d" % uniq[0], w1, explicit_name=True)
+        y1 = claripy.BVS("y_c%d" % uniq[0], w1, explicit_name=True)
+        op = rng.choice(["__xor__", "__or__", "__and__"])
+        zero = claripy.BVV(0 if op != "__and__" else (1 << w2) - 1, w2)
+        lhs, rhs = claripy.Concat(x1, zero), claripy.Concat(y1, z)
+        if rng.random() < 0.5:
+            lhs, rhs = rhs, lhs
+        r_ = getattr(lhs, op)(rhs)[w2 - 1:0]
+        dist["corpus.extract_to_annotated_leaf"] += 1
+        check_ast("extract-distribute", r_)
+        del z, r_, lhs, rhs
     for name, tree in stream():
         dist[name] += 1
+        if rng.random() < 0.25:
+            # annotated construction (eliminatable / relocatable / non-eliminatable annotations on leaves and inner nodes)
+            uniq[0] += 1
+            try:
+                a = agen.build(fresh_names(tree), [])
+            except Exception:
+                continue
+            check_ast("annotated-build", a)
+            del a
+            continue
         a, log, e = X.build_case(tree)
         if e is not None:
             continue
